@@ -7,6 +7,7 @@
 //!   lzma2 <dict> <preset|none> <stream> <sizes>
 //! Observation: END <out> <unconsumed> | ERR<kind> <out before the failing call> | CERR<kind> | PANIC
 use crate::encutil::*;
+use crate::minienc::{lzma2_stored_then_lzma, Sym};
 use crate::reflib;
 use crate::util::*;
 use lzma_rust2::{LZMA2Reader, LZMAReader};
@@ -90,6 +91,7 @@ pub fn exec(a: &[&str]) -> (String, String) {
             let sizes = sizes_of(a[3]);
             let obs = observe(|| LZMAReader::new_mem_limit(Cursor::new(stream.clone()), ml, None), &sizes, |r| cursor_left(&r.into_inner()));
             let oracle = oracle_vs_ref(&obs, reflib::lzma_alone_decode(&stream));
+            let oracle = oracle_tail(a, &obs, oracle);
             (obs, oracle)
         }
         "lzma1_raw" => {
@@ -99,7 +101,8 @@ pub fn exec(a: &[&str]) -> (String, String) {
             let stream = unhex(a[7]);
             let sizes = sizes_of(a[8]);
             let obs = observe(|| LZMAReader::new(Cursor::new(stream.clone()), u, lc, lp, pb, d, pre.as_deref()), &sizes, |r| cursor_left(&r.into_inner()));
-            (obs.clone(), oracle_no_panic(&obs))
+            let oracle = oracle_tail(a, &obs, oracle_no_panic(&obs));
+            (obs, oracle)
         }
         "lzma1_props" => {
             let u: u64 = if a[1] == "-1" { u64::MAX } else { a[1].parse().unwrap() };
@@ -108,7 +111,8 @@ pub fn exec(a: &[&str]) -> (String, String) {
             let stream = unhex(a[5]);
             let sizes = sizes_of(a[6]);
             let obs = observe(|| LZMAReader::new_with_props(Cursor::new(stream.clone()), u, props, d, pre.as_deref()), &sizes, |r| cursor_left(&r.into_inner()));
-            (obs.clone(), oracle_no_panic(&obs))
+            let oracle = oracle_tail(a, &obs, oracle_no_panic(&obs));
+            (obs, oracle)
         }
         "lzma2" => {
             let d: u32 = a[1].parse().unwrap();
@@ -117,10 +121,31 @@ pub fn exec(a: &[&str]) -> (String, String) {
             let sizes = sizes_of(a[4]);
             let obs = observe(|| Ok(LZMA2Reader::new(Cursor::new(stream.clone()), d, pre.as_deref())), &sizes, |r| cursor_left(&r.into_inner()));
             let oracle = if pre.is_none() && d >= 4096 { oracle_vs_ref(&obs, reflib::lzma2_raw_decode(&stream, d)) } else { oracle_no_panic(&obs) };
+            let oracle = oracle_tail(a, &obs, oracle);
             (obs, oracle)
         }
         _ => ("NOCMD".into(), "FAIL unknown command".into()),
     }
+}
+
+/// C16: for a stream the crate's own writer produced (not corrupted) followed by `tail` extra bytes,
+/// end of stream must leave exactly those bytes unread.  The expectation travels as a last,
+/// implementation-only argument "t<n>".
+fn oracle_tail(a: &[&str], obs: &str, prev: String) -> String {
+    if prev != "ok" {
+        return prev;
+    }
+    if let Some(t) = a.last().and_then(|x| x.strip_prefix('t')).and_then(|x| x.parse::<usize>().ok()) {
+        if let Some(rest) = obs.strip_prefix("END ") {
+            let left: usize = rest.split(' ').nth(1).and_then(|x| x.parse().ok()).unwrap_or(usize::MAX);
+            if left != t {
+                return format!("FAIL end of stream leaves {left} source bytes unread, the stream is followed by {t}");
+            }
+        } else {
+            return "FAIL a stream written by the crate's own writer is not read to its end".into();
+        }
+    }
+    "ok".into()
 }
 
 fn oracle_no_panic(obs: &str) -> String {
@@ -237,19 +262,26 @@ pub fn gen(rng: &mut Rng, tier: &str, dist: &mut Dist) -> Vec<String> {
             }
             stream.extend_from_slice(&tail);
             dist.bump(&format!("lzma1.variant{variant}{}", if corrupted { ".corrupt" } else { "" }));
+            let tl = if corrupted { String::new() } else { format!(" t{}", tail.len()) };
             match variant {
-                0 | 1 => cmds.push(format!("lzma1_hdr {} {} {}", if rng.chance(1, 8) { rng.below(5000) } else { u32::MAX as u64 }, hex(&stream), ints(&sizes))),
+                0 | 1 => {
+                    let limit = if rng.chance(1, 8) { rng.below(5000) } else { u32::MAX as u64 };
+                    let tl = if limit == u32::MAX as u64 { tl.clone() } else { String::new() };
+                    cmds.push(format!("lzma1_hdr {} {} {}{}", limit, hex(&stream), ints(&sizes), tl))
+                }
                 2 => {
                     if rng.chance(1, 2) {
-                        cmds.push(format!("lzma1_raw -1 {} {} {} {} {} {} {}", o.lc, o.lp, o.pb, o.dict, pre_s, hex(&stream), ints(&sizes)))
+                        cmds.push(format!("lzma1_raw -1 {} {} {} {} {} {} {}{}", o.lc, o.lp, o.pb, o.dict, pre_s, hex(&stream), ints(&sizes), tl))
                     } else {
-                        cmds.push(format!("lzma1_props -1 {} {} {} {} {}", o.props(), o.dict, pre_s, hex(&stream), ints(&sizes)))
+                        cmds.push(format!("lzma1_props -1 {} {} {} {} {}{}", o.props(), o.dict, pre_s, hex(&stream), ints(&sizes), tl))
                     }
                 }
                 _ => {
                     // no end marker: the caller supplies the size (exact, or wrong one time in six)
-                    let u = if rng.chance(1, 6) { (data.len() as u64 + rng.below(5)).saturating_sub(2) } else { data.len() as u64 };
-                    cmds.push(format!("lzma1_raw {} {} {} {} {} {} {} {}", u, o.lc, o.lp, o.pb, o.dict, pre_s, hex(&stream), ints(&sizes)))
+                    let exact = !rng.chance(1, 6);
+                    let u = if exact { data.len() as u64 } else { (data.len() as u64 + rng.below(5)).saturating_sub(2) };
+                    let tl = if exact { tl.clone() } else { String::new() };
+                    cmds.push(format!("lzma1_raw {} {} {} {} {} {} {} {}{}", u, o.lc, o.lp, o.pb, o.dict, pre_s, hex(&stream), ints(&sizes), tl))
                 }
             }
         } else if kind < 9 {
@@ -281,7 +313,8 @@ pub fn gen(rng: &mut Rng, tier: &str, dist: &mut Dist) -> Vec<String> {
             dist.bump(&format!("lzma2{}{}", if use_preset { ".preset" } else { "" }, if corrupted { ".corrupt" } else { "" }));
             // the reader's dictionary: the writer's, or occasionally smaller/odd values
             let rd = match rng.below(8) { 0 => 4096, 1 => 0, 2 => 1, 3 => 17, _ => o.dict };
-            cmds.push(format!("lzma2 {} {} {} {}", rd, pre_s, hex(&stream), ints(&sizes)));
+            let tl = if corrupted || rd != o.dict { String::new() } else { format!(" t{}", tail.len()) };
+            cmds.push(format!("lzma2 {} {} {} {}{}", rd, pre_s, hex(&stream), ints(&sizes), tl));
         } else {
             // random bytes into every constructor
             let junk: Vec<u8> = (0..rng.below(200)).map(|_| if rng.chance(1, 3) { 0 } else { rng.next() as u8 }).collect();
@@ -291,6 +324,36 @@ pub fn gen(rng: &mut Rng, tier: &str, dist: &mut Dist) -> Vec<String> {
                 1 => cmds.push(format!("lzma1_props {} {} {} none {} {}", if rng.chance(1, 2) { -1i64 } else { rng.below(1000) as i64 }, rng.below(256), *rng.pick(&[0u64, 1, 4096, 65536, 4294967280, 4294967295]), hex(&junk), ints(&sizes))),
                 _ => cmds.push(format!("lzma2 {} none {} {}", *rng.pick(&[0u64, 16, 4096, 65536, 4294967280]), hex(&junk), ints(&sizes))),
             }
+        }
+    }
+    // hand-built hostile LZMA2 streams (independent mini encoder): a stored chunk fills the
+    // dictionary up to a chosen point, then an LZMA chunk holds a match whose distance sits at the
+    // border of what the dictionary holds - one below (legal), exactly at, one above - with the write
+    // position just wrapped, in the middle, or at the end of the cyclic buffer; and matches whose
+    // length runs over the announced chunk size
+    for &dict in &[4096u32, 8192] {
+        for &fill in &[dict as usize, dict as usize - 1, dict as usize + 1, 100, 2 * dict as usize] {
+            let stored = gen_data_len(rng, "text", fill);
+            let avail = fill.min(dict as usize) as u32; // bytes the window holds
+            for delta in [-1i64, 0, 1, 17] {
+                let d = (avail as i64 - 1 + delta).max(0) as u32; // zero-based distance
+                let legal = delta < 0;
+                for &len in &[2u32, 273] {
+                    let syms = vec![(Sym::Match(d, len), legal), (Sym::Lit(0x41), legal)];
+                    let claim = if legal { len as usize + 1 } else { len as usize };
+                    let mut stream = lzma2_stored_then_lzma(&stored, &syms, claim, 3, 0, 2);
+                    stream.extend_from_slice(&[9, 9]);
+                    dist.bump(if legal { "hostile.dist_border.legal" } else { "hostile.dist_border.illegal" });
+                    cmds.push(format!("lzma2 {} none {} {}", dict, hex(&stream), ints(&gen_sizes(rng))));
+                }
+            }
+        }
+        // rep0 before any match (distance 0 with an empty / tiny history), short rep on empty history
+        for syms in [vec![(Sym::Rep(0, 1), false)], vec![(Sym::Rep(0, 5), false)], vec![(Sym::Lit(1), true), (Sym::Rep(0, 1), true), (Sym::Rep(3, 9), true)],
+                     vec![(Sym::Lit(1), true), (Sym::Match(0, 273), true), (Sym::Match(1, 2), true)]] {
+            let stream = lzma2_stored_then_lzma(&[], &syms, 300, 3, 0, 2);
+            dist.bump("hostile.rep_on_empty");
+            cmds.push(format!("lzma2 {} none {} {}", dict, hex(&stream), ints(&gen_sizes(rng))));
         }
     }
     // hand-made LZMA2 streams of stored chunks at the size-field borders (1, 2, 65535, 65536 bytes),
